@@ -132,10 +132,8 @@ struct HmHarness : HarnessBase {
 	void final_check() { if(alive) { m().~M(); alive = false; } raise_pending(); world_check_empty("hash_map"); }
 	void canon(std::string &out) {
 		world_canon(out);
-		// iteration order is observable and determines future iteration results
-		if(alive && m().size()) for(auto it = m().begin(); !(it == m().end()); ++it) {
-			char b[32]; snprintf(b, sizeof b, "%d=%d,", it->template get<0>(), (int)it->template get<1>().v); out += b;
-		}
+		// raw memory graph of the map (object, table, chains): hidden fields and chain order included
+		GraphCanon g; if(alive) g.root(store, sizeof(M)); g.emit(out);
 		out += "#";
 		for(auto &kv : ref) { char b[32]; snprintf(b, sizeof b, "%d=%d,", kv.first, kv.second); out += b; }
 	}
